@@ -375,6 +375,10 @@ impl CoreInner {
 	/// The actual SST flush happens asynchronously via background task.
 	pub(crate) fn rotate_memtable(&self) -> Result<()> {
 		// Step 1: Acquire WRITE lock upfront to prevent race conditions
+		#[cfg(surrealkv_verif)]
+		crate::verif::acquire_point("rotate:memtable-write-lock", &|| {
+			self.active_memtable.try_write().is_err()
+		});
 		let mut active_memtable = self.active_memtable.write()?;
 
 		if active_memtable.is_empty() {
